@@ -50,6 +50,7 @@ type InstrumentReport struct {
 	ExprWrapping bool        `json:"expr_wrapping"`
 	AtomicWraps  int         `json:"atomic_wraps"`
 	Constants    []int       `json:"integer_constants"` // harvested from the library source (size dictionary)
+	FloatConsts  []float64   `json:"float_constants"`   // floating-point literals (radius / magnitude dictionary)
 	SimLocks     int         `json:"simulated_locks"`
 	Uncontrolled []Construct `json:"uncontrolled_constructs"`
 }
@@ -158,7 +159,12 @@ func instrumentTree(dir, verifsimSrc string, wrapExpr bool) (*InstrumentReport, 
 	}
 	sort.Strings(files)
 	constSet := map[int]bool{}
+	floatSet := map[float64]bool{}
 	defer func() {
+		for v := range floatSet {
+			rep.FloatConsts = append(rep.FloatConsts, v)
+		}
+		sort.Float64s(rep.FloatConsts)
 		for v := range constSet {
 			rep.Constants = append(rep.Constants, v)
 		}
@@ -188,6 +194,11 @@ func instrumentTree(dir, verifsimSrc string, wrapExpr bool) (*InstrumentReport, 
 		ast.Inspect(f, func(n ast.Node) bool {
 			switch x := n.(type) {
 			case *ast.BasicLit:
+				if x.Kind == token.FLOAT {
+					if v, err := strconv.ParseFloat(x.Value, 64); err == nil && v >= 1e-3 && v <= 1e9 {
+						floatSet[v] = true
+					}
+				}
 				if x.Kind == token.INT {
 					if v, err := strconv.ParseInt(x.Value, 0, 64); err == nil && v >= 3 && v <= 20000 {
 						constSet[int(v)] = true
